@@ -464,11 +464,13 @@ class Interp:
             if name == "__class__":
                 return v.cls
             raise Unsupported(f"attribute {name} of exception value")
-        if isinstance(v, (list, dict, set, str, tuple, Tpl)) and not isinstance(v, (enum.Enum,)):
-            if isinstance(v, str) and isinstance(v, enum.Enum):
-                pass
-            else:
+        if isinstance(v, Tpl):
+            return NativeMethod(v, name)
+        if isinstance(v, (list, dict, set, str, tuple)) and not isinstance(v, enum.Enum):
+            base = next(b for b in (list, dict, set, str, tuple) if isinstance(v, b))
+            if hasattr(base, name):
                 return NativeMethod(v, name)
+            # attribute of a subclass instance (lark.Token.type / .value ...)
         if isinstance(v, NativeAbs):
             return v.getattr(self, name)
         if isinstance(v, (SInt, SBool)):
